@@ -215,6 +215,21 @@ def leanchecker(prop, timeout=1500):
     return p.returncode == 0, (p.stdout + p.stderr)[-2000:]
 
 
+def write_driver_all():
+    """lean/OQ/Driver/All.lean dispatches to every OQ/Driver/Cxx.lean present (regenerated, not hand-edited)."""
+    d = os.path.join(LEAN, "OQ", "Driver")
+    props = sorted(f[:-5] for f in os.listdir(d) if re.fullmatch(r"C\d\d\.lean", f))
+    text = "-- generated by harness/common.py:write_driver_all — do not edit\n"
+    text += "".join(f"import OQ.Driver.{p}\n" for p in props)
+    text += "open Lean\nnamespace OQ.Driver\n\ndef dispatch (prop op : String) (j : Json) : Except String Json :=\n  match prop with\n"
+    text += "".join(f'  | "{p}" => OQ.{p}.Driver.handle op j\n' for p in props)
+    text += '  | _ => .error s!"unknown property {prop}"\n\nend OQ.Driver\n'
+    path = os.path.join(d, "All.lean")
+    if not os.path.exists(path) or open(path).read() != text:
+        open(path, "w").write(text)
+    return props
+
+
 class Driver:
     """Batch interface to the compiled model driver."""
 
